@@ -43,5 +43,7 @@ mk(B,'b45_intow_next_block','C01',RD,'let offset = self.block_id * crate::BLOCK_
 mk(B,'b46_intow_no_seek','C01',RD,'        self.file.seek(SeekFrom::Start(offset as u64))?;\n        Ok(RollingWriter {','        Ok(RollingWriter {','the file cursor is left behind the last block read')
 mk(B,'b47_intow_first_file','C01 C06',RD,'            file_number: self.file_number.clone(),\n            directory: self.directory,','            file_number: self.directory.first_file_number().clone(),\n            directory: self.directory,','the recovered writer claims to write into the oldest file')
 mk(G,'g13_intow_commute','-',RD,'let offset = self.block_id * crate::BLOCK_NUM_BYTES;','let offset = crate::BLOCK_NUM_BYTES * self.block_id;','commuted product')
+mk(B,'b48_summary_end_next','C05',MQ,'            end: self.last_position(),','            end: Some(self.next_position()),','summary reports the next position as the last one')
+mk(B,'b49_summary_skips_empty','C05','src/mem/queues.rs','            summary.queues.insert(queue_name.clone(), queue.summary());','            if !queue.is_empty() { summary.queues.insert(queue_name.clone(), queue.summary()); }','summary omits empty queues')
 shutil.rmtree(W, ignore_errors=True)
 subprocess.run(['git','-C','/repo','worktree','prune'],check=True)
